@@ -556,6 +556,22 @@ func TestC03(t *testing.T) {
 	if !run.Replaying() {
 		run.Require("crash-kind|crash|tcp=true", "crash-kind|hang|tcp=true", "crash-kind|unreach|tcp=true", "crash-kind|unreach|tcp=false", "crash-kind|address-taken-over|tcp=true")
 	}
+	for i := 0; i < run.Pick(2, 40); i++ {
+		id := fmt.Sprintf("real/stalled-event-consumer/%d", i)
+		if !run.Mine(i) || !run.Want(id) {
+			continue
+		}
+		run.Journal(id, "")
+		res, inc := runC03SlowConsumer(run, i)
+		run.Eval(1)
+		if inc != "" {
+			run.Note("real-time scenario %s inconclusive: %s", id, inc)
+			run.Count("real_inconclusive", 1)
+		}
+		for _, r := range res {
+			run.Violation(id, r.Key, r.What, nil)
+		}
+	}
 	run.Complete()
 	if run.Violations() > 0 {
 		t.Errorf("%d violation(s)", run.Violations())
